@@ -55,6 +55,28 @@ func (f *Frame) call(in ssa.CallInstruction, res *ssa.Call) {
 		}
 	}
 
+	if c.IsInvoke() && !escapes {
+		if nt, ok := c.Value.Type().(*types.Named); ok && nt.Obj().Pkg() != nil {
+			key := nt.Obj().Pkg().Name() + ".(" + nt.Obj().Name() + ")." + c.Method.Name()
+			if spec := vc.eng.spec.Funcs[key]; spec != nil {
+				sig := c.Method.Type().(*types.Signature)
+				cs := calleeSig{key: key, pkg: nt.Obj().Pkg().Name(), name: c.Method.Name(), results: sig.Results()}
+				cs.names = append(cs.names, "recv")
+				cs.types = append(cs.types, c.Value.Type())
+				for i := 0; i < sig.Params().Len(); i++ {
+					n := sig.Params().At(i).Name()
+					if n == "" {
+						n = fmt.Sprintf("arg%d", i)
+					}
+					cs.names = append(cs.names, n)
+					cs.types = append(cs.types, sig.Params().At(i).Type())
+				}
+				f.safety(f.nameCount("nil:invoke "+nt.Obj().Name()+"."+c.Method.Name()), Not(S("=", S("i-tag", args[0]), "0")), "method call on nil interface", in.Pos())
+				f.callBySig(cs, spec, args, res, setResult, in.Pos())
+				return
+			}
+		}
+	}
 	callee := c.StaticCallee()
 	if !c.IsInvoke() {
 		// direct call of a closure created in this function
@@ -245,30 +267,57 @@ func (f *Frame) inlineCall(callee *ssa.Function, args []string, res *ssa.Call, s
 	setResult(terms)
 }
 
+// calleeSig describes what a contract call needs to know about the callee.
+type calleeSig struct {
+	key      string
+	pkg      string
+	name     string
+	names    []string
+	types    []types.Type
+	results  *types.Tuple
+	fn       *ssa.Function // nil for interface methods
+}
+
+func sigOfFunc(callee *ssa.Function) calleeSig {
+	cs := calleeSig{key: fnKey(callee), pkg: callee.Pkg.Pkg.Name(), name: callee.Name(), results: callee.Signature.Results(), fn: callee}
+	for _, p := range callee.Params {
+		cs.names = append(cs.names, p.Name())
+		cs.types = append(cs.types, p.Type())
+	}
+	return cs
+}
+
 // callByContract: requires are obligations, ensures and frame are all that is known.
 func (f *Frame) callByContract(callee *ssa.Function, spec *FuncSpec, args []string, res *ssa.Call, setResult func([]string), pos token.Pos) {
+	f.callBySig(sigOfFunc(callee), spec, args, res, setResult, pos)
+}
+
+func (f *Frame) callBySig(cs calleeSig, spec *FuncSpec, args []string, res *ssa.Call, setResult func([]string), pos token.Pos) {
 	vc := f.vc
-	key := fnKey(callee)
+	key := cs.key
+	callee := cs.fn
 	if spec.Trusted {
 		vc.assumed[key] = true
 	}
 	pre := f.cur.clone()
 	cn := f.nameCount(shortName(key))
 	params := map[string]TV{}
-	for i, p := range callee.Params {
-		params[p.Name()] = TV{args[i], p.Type()}
+	for i, n := range cs.names {
+		params[n] = TV{args[i], cs.types[i]}
 	}
 	// free variables of a closure denote the captured variable's value at the call
-	for i, fv := range callee.FreeVars {
-		j := len(callee.Params) + i
-		if j < len(args) {
-			if pt, _ := fv.Type().Underlying().(*types.Pointer); pt != nil {
-				params[fv.Name()] = TV{f.loadPtr(pre, args[j], pt.Elem()), pt.Elem()}
+	if callee != nil {
+		for i, fv := range callee.FreeVars {
+			j := len(callee.Params) + i
+			if j < len(args) {
+				if pt, _ := fv.Type().Underlying().(*types.Pointer); pt != nil {
+					params[fv.Name()] = TV{f.loadPtr(pre, args[j], pt.Elem()), pt.Elem()}
+				}
 			}
 		}
 	}
 	mkEnv := func(cur, old *State) *TEnv {
-		env := &TEnv{vc: vc, f: f, pkg: callee.Pkg.Pkg.Name(), vars: map[string]TV{}, cur: stateHeap{f, cur}, old: stateHeap{f, old}}
+		env := &TEnv{vc: vc, f: f, pkg: cs.pkg, vars: map[string]TV{}, cur: stateHeap{f, cur}, old: stateHeap{f, old}}
 		env.lookup = func(name string) (TV, bool) { tv, ok := params[name]; return tv, ok }
 		env.allocOld = f.get(old, vc.allocKey())
 		return env
@@ -284,7 +333,7 @@ func (f *Frame) callByContract(callee *ssa.Function, spec *FuncSpec, args []stri
 		vc.assume(Imp(f.curReach, tv.T))
 	}
 	// termination of recursion
-	if callee == vc.fn && f.parent == nil && spec.Decreases != nil {
+	if callee != nil && callee == vc.fn && f.parent == nil && spec.Decreases != nil {
 		tv, err := mkEnv(pre, pre).tr(spec.Decreases.Expr)
 		if err == nil && vc.topFrame != nil && vc.topFrame.entryMeasure != "" {
 			f.oblige("decreases", fmt.Sprintf("decreases:%s", cn), And(S("<=", "0", vc.topFrame.entryMeasure), S("<", tv.T, vc.topFrame.entryMeasure)), spec.Decreases.Text, pos)
@@ -302,9 +351,9 @@ func (f *Frame) callByContract(callee *ssa.Function, spec *FuncSpec, args []stri
 	// 3. results
 	var results []TV
 	var terms []string
-	rs := callee.Signature.Results()
+	rs := cs.results
 	for i := 0; i < rs.Len(); i++ {
-		t := vc.fresh(f.id+"res_"+sym(callee.Name()), vc.eng.sortOf(rs.At(i).Type()))
+		t := vc.fresh(f.id+"res_"+sym(cs.name), vc.eng.sortOf(rs.At(i).Type()))
 		for _, inv := range vc.eng.typeInv(t, rs.At(i).Type(), f.get(post, vc.allocKey()), 0) {
 			vc.assume(inv)
 		}
@@ -314,7 +363,9 @@ func (f *Frame) callByContract(callee *ssa.Function, spec *FuncSpec, args []stri
 	// 4. postconditions
 	env := mkEnv(post, pre)
 	env.results = results
-	env.resultNames = resultNames(callee)
+	for i := 0; i < rs.Len(); i++ {
+		env.resultNames = append(env.resultNames, rs.At(i).Name())
+	}
 	for _, en := range spec.Ensures {
 		tv, err := env.tr(en.Expr)
 		if err != nil {
